@@ -45,6 +45,47 @@ type Check struct {
 	// KeyOf maps a violation (scenario, key) to the stable class used in the
 	// known-findings file (default: "<ID>:<scenario>:<key>").
 	KeyOf func(scenario, key string) string
+	// Extra, if set, runs before the evidence is written (to merge the results
+	// of another part of the same check, e.g. an engine-S summary file).
+	Extra func(r *ev.Run)
+}
+
+// MergeSummary merges a JSON summary written by another part of a check
+// (fields: Execs, Points, Steps, Distinct, Harnesses, Viol[{Key,What,Artefact}],
+// NotExhaustive) into r under the given coverage prefix.
+func MergeSummary(r *ev.Run, path, prefix string) {
+	b, err := os.ReadFile(path)
+	if err != nil {
+		ev.InfraError("summary of part %s missing: %v", prefix, err)
+	}
+	var s struct {
+		Execs, Points, Steps int64
+		Distinct             int
+		Harnesses            map[string]any
+		Viol                 []struct {
+			Key, What string
+			Artefact  any
+		}
+		NotExhaustive []string
+	}
+	if err := json.Unmarshal(b, &s); err != nil {
+		ev.InfraError("summary %s: %v", path, err)
+	}
+	r.Evals(s.Execs)
+	r.Traces(s.Execs)
+	r.States(s.Points + s.Execs)
+	r.Transitions(s.Steps)
+	for i := 0; i < s.Distinct; i++ {
+		r.Distinct(fmt.Sprintf("%s-outcome-%d", prefix, i))
+	}
+	r.Set(prefix+"_executions", s.Execs)
+	r.Set(prefix+"_harnesses", s.Harnesses)
+	for _, ne := range s.NotExhaustive {
+		r.NotExhaustive(ne)
+	}
+	for _, v := range s.Viol {
+		r.Violation(v.Key, v.What, v.Artefact)
+	}
 }
 
 func IsFault(label string) bool {
@@ -221,6 +262,9 @@ func Main(t *testing.T, c *Check) {
 	}
 	_ = start
 	r.Set("scenarios", perScenario)
+	if c.Extra != nil {
+		c.Extra(r)
+	}
 	code := r.Write()
 	os.Exit(code)
 }
